@@ -280,7 +280,9 @@ class BodyMixin:
         self._body.seek(0)
         read = self._body.read
         max_content_length = self.config.max_memfile_size
-        content_length = self.content_length
+        # a chunked body is delimited by its framing: a Content-Length sent
+        # next to it does not describe the decoded body (RFC 7230, 3.3.3)
+        content_length = -1 if self.chunked else self.content_length
 
         if content_length > max_content_length:
             raise self._raise(BodySizeError(), RequestError)
